@@ -407,27 +407,33 @@ func (s *state) visitDataRef(node *ast.DataRefNode) {
 	}
 
 	// Nullsafe access makes this complicated.
-	// FOO.BAR?.BAZ => (FOO.BAR == null ? null : FOO.BAR.BAZ)
+	// FOO.BAR?.BAZ => ((FOO.BAR == null) ? null : FOO.BAR.BAZ)
+	// (parenthesised as a whole, so that it stays one operand wherever the
+	// reference is used: -$a?.b, length($a?.b), $a?.b == 1, ...)
+	var closing = ""
 	for _, accessNode := range node.Access {
 		switch node := accessNode.(type) {
 		case *ast.DataRefIndexNode:
 			if node.NullSafe {
-				s.js("(", expr, " == null) ? null : ")
+				s.js("((", expr, " == null) ? null : ")
+				closing += ")"
 			}
 			expr += "[" + strconv.Itoa(node.Index) + "]"
 		case *ast.DataRefKeyNode:
 			if node.NullSafe {
-				s.js("(", expr, " == null) ? null : ")
+				s.js("((", expr, " == null) ? null : ")
+				closing += ")"
 			}
 			expr += "." + node.Key
 		case *ast.DataRefExprNode:
 			if node.NullSafe {
-				s.js("(", expr, " == null) ? null : ")
+				s.js("((", expr, " == null) ? null : ")
+				closing += ")"
 			}
 			expr += "[" + s.block(node.Arg) + "]"
 		}
 	}
-	s.js(expr)
+	s.js(expr, closing)
 }
 
 func (s *state) visitCall(node *ast.CallNode) {
